@@ -83,8 +83,9 @@ DEPS = ["d1", "d2", "dx", "chainA", "chainB"]
 
 
 def gen_chain_case(r, fns):
-    """caches whose names are labels of one another: invalidation must not cascade"""
-    chain = [f for f in fns if f["name"].startswith("chain")]
+    """caches whose names are labels of one another (or of themselves): invalidation must not cascade
+    and must not skip a cache that names itself"""
+    chain = [f for f in fns if f["name"].startswith("chain") or f["name"] in f["deps"] + f["events"] + f["tags"]]
     evs = []
     def calls():
         for f in chain:
@@ -94,7 +95,7 @@ def gen_chain_case(r, fns):
     calls()
     for _ in range(1 + r.below(3)):
         kind = r.pick(["dep", "dep", "tag", "event"])
-        label = r.pick(["d1", "chainA", "chainB", "t2", "chainC", "dx"])
+        label = r.pick(["d1", "chainA", "chainB", "t2", "chainC", "dx", "chainS"] + [f["name"] for f in chain])
         evs.append("E 0 %s %s" % (kind, label))
         calls()
     return chain, evs
